@@ -909,7 +909,7 @@ partial def loop (hIn : IO.FS.Stream) (ds : DS) : IO DS := do
         for k in r.stats do ds := stat ds ("sit." ++ k)
         ds := { ds with stats := bump ds.stats "tx.payout.ok" 1 }
         for (kind, name, detail) in r.findings do
-          ds ← finding ds kind "C04" name detail
+          ds ← finding ds kind "C02,C04" name detail
         pure ds
       | "cmp" => do
         -- C10: a second instance and a restarted instance were fed the same block
